@@ -11,6 +11,7 @@ From LCP Require Import Crypto.AesSpec.
 From LCP Require Import Crypto.AesProofs.
 From LCP Require Import Accel.AesNi.
 From LCP Require Import Crypto.AesCtrModel.
+From LCP Require Import Crypto.AesCtrRef.
 From LCP Require Import Crypto.AesRepo.
 From LCP Require Import Accel.AesNiProofs.
 From LCP Require Import Accel.AesNiKeyProofs.
@@ -21,6 +22,32 @@ From LCP Require Import Crypto.AesSelect.
 From LCP Require Import Crypto.AesSelectProofs.
 Import ListNotations.
 Local Open Scope N_scope.
+
+(* The stream model (stream, stream_aesni, stream_cfg, wholeblocks_aesni, ... of Crypto/AesCtrModel.v)
+   contains no hand-written bookkeeping arithmetic: every statement of crypto_aesctr.c,
+   crypto_aesctr_shared.c and crypto_aesctr_aesni.c that updates stream->bytectr, *buflen, *inbuf /
+   *outbuf, block_counter, the loop counter i and stream->pblk[15], every condition over them and the
+   (nbytes, bytemod) arguments of the cipherblock_use calls are regenerated from the C text as
+   expression trees (Gen/Repo_aes_arith.v) and evaluated with C integer semantics (Crypto/AesCtrArith.v:
+   the type a literal's spelling gives it, integer promotions, usual arithmetic conversions, wrap at the
+   width of the type; `*buflen & ~15U` keeps only bits 4..31, `& ~(size_t)15` and `& ~15` keep 4..63:
+   the mask_ examples of AesCtrExamples.v).  Ref.* (Crypto/AesCtrRef.v) are the same functions with the arithmetic
+   written out in N ("subtract 16 * (buflen / 16)", "(bytectr + n) mod 2^64").  For every state whose pblk
+   has 16 bytes and EVERY call length that does not run past stream position 2^64 - nothing is bounded
+   by 2^32 - the two compute the same; all theorems below are about the evaluated, regenerated model. *)
+Theorem C03_ctr_regenerated_bookkeeping_eq_reference : forall (E : list N -> list N) hw s inp,
+  bytectr s + N.of_nat (length inp) < two64 -> length (pblk s) = 16%nat ->
+  stream_cfg E hw s inp = Ref.stream_cfg E hw s inp.
+Proof. exact stream_cfg_eq_reference. Qed.
+Print Assumptions C03_ctr_regenerated_bookkeeping_eq_reference.
+
+(* in particular the AES-NI whole-block function with its end-of-loop updates of *buflen, pblk[8..15]
+   and stream->bytectr, for one call of any number of blocks *)
+Theorem C03_aesni_wholeblocks_bookkeeping_eq_reference : forall (E : list N -> list N) s inp,
+  16 <= N.of_nat (length inp) -> bytectr s + N.of_nat (length inp) < two64 -> length (pblk s) = 16%nat ->
+  wholeblocks_aesni E s inp (N.of_nat (length inp)) = Ref.wholeblocks_aesni E s inp (N.of_nat (length inp)).
+Proof. exact wholeblocks_aesni_eq_reference. Qed.
+Print Assumptions C03_aesni_wholeblocks_bookkeeping_eq_reference.
 
 (* M2: from any state satisfying the stream invariant, crypto_aesctr_aesni_stream and the portable
    crypto_aesctr_stream write the same bytes and leave states with equal bytectr, equal pblk and
